@@ -140,6 +140,9 @@ class ProcSim(object):
         if p is None or p.state == 'reaped':
             raise ProcessLookupError(errno.ESRCH, 'No such process')
         p.signals.append(sig)
+        if p.state == 'zombie' and getattr(self, 'esrch_on_zombie', False) and sig != 0:
+            self.esrch_on_zombie = False          # injected once
+            raise ProcessLookupError(errno.ESRCH, 'No such process')
         if sig == 0 or p.state == 'zombie':
             return
         self._deliver(p, sig)
